@@ -347,9 +347,18 @@ package db
 //@ trusted
 //@ ensures err != nil ==> result0 == nil
 //@ ensures err == nil && len(result0) >= 2 && result0[0] == 0 && result0[1] == 111 ==> len(result0) >= 5
-// row callbacks work on the row they are given; they do not write to key buffers (assumed)
+// row callbacks work on the row they are given; they do not write to key buffers (assumed). Ghost trace of
+// lookups: nlook counts them, nlookGlobal those under the empty (global) location 00. The callback is
+// applied to an arbitrary number of rows, each a well-formed row (DB well-formedness: >= 21 bytes covers
+// type, marker, location, ttl, ttd, weight).
+//@ ghostvar nlook int
+//@ ghostvar nlookGlobal int
 //@ func DataReader.ForEach
 //@ trusted
+//@ updates nlook, nlookGlobal
+//@ flag callback f
+//@ flag callbackrow len(row) >= 21
+//@ ensures nlook == old(nlook) + 1 && nlookGlobal == old(nlookGlobal) + ite(len(key) >= 2 && key[0] == 0 && key[1] == 0, 1, 0)
 //@ func sortedDataReader.TryForEach
 //@ flag skip frame
 //@ requires r.closestKeyFinder != nil
@@ -365,3 +374,46 @@ package db
 //@ requires wfname(q, n, offs, idx) && revoffs(q, n, offs, roffs, ridx) && loc != nil && r.closestKeyFinder != nil
 //@ call reverseZoneName#0 ghost n = n; offs = offs; idx = idx; roffs = roffs; ridx = ridx
 //@ loop 0 invariant 1 <= qLength && qLength <= len(reversedQName) + 1 && len(reversedQName) == len(q) && locationLength == 2 && domainNameStart == 2 && loc != nil
+
+// ---- C01: decoding a stored row -------------------------------------------------------------------------
+// row = type(2, big endian) marker(1) [location(2) iff marker is '>' or '+'] ttl(4) ttd(8) [weight(4) iff A/AAAA] rdata
+//@ func ExtractRRFromRow
+//@ requires len(row) >= 21
+//@ ensures[errs] err == nil || err == ErrWildcardMismatch
+//@ ensures[wild] err == ErrWildcardMismatch <==> (wildcard != (row[2] == 42 || row[2] == 43))
+//@ ensures[type] rr.Qtype == row[0] * 256 + row[1]
+//@ ensures[ttl] err == nil ==> rr.TTL == row[3 + ite(row[2] == 62 || row[2] == 43, 2, 0)] * 16777216 + row[4 + ite(row[2] == 62 || row[2] == 43, 2, 0)] * 65536 + row[5 + ite(row[2] == 62 || row[2] == 43, 2, 0)] * 256 + row[6 + ite(row[2] == 62 || row[2] == 43, 2, 0)]
+//@ ensures[offset] err == nil ==> rr.Offset == 15 + ite(row[2] == 62 || row[2] == 43, 2, 0) + ite(rr.Qtype == 1 || rr.Qtype == 28, 4, 0)
+
+// One round of the label-by-label zone-cut walk (CDB / v1 keys): the records of the client's location are
+// consulted first; the global records are consulted as well UNLESS both an SOA and an NS were already found.
+//@ func DataReader.IsAuthoritative@round
+//@ region for#0
+//@ updates nlook, nlookGlobal
+//@ flag skip frame
+//@ flag unclaimed /bounds/zoneCut\[1\+zoneCut\[0\]:\]
+//@ requires loc != nil && len(zoneCut) >= 1 && r.db != nil
+//@ ensures[global-unless-both] err == nil && nlookGlobal == old(nlookGlobal) ==> auth && ns
+//@ ensures[monotone] err == nil ==> (old(auth) ==> auth) && (old(ns) ==> ns)
+
+// The row callback of both zone-cut walks: an SOA row makes the name authoritative, an NS row a zone cut;
+// rows whose wildcard marker does not match are ignored; nothing else changes the two flags.
+//@ func DataReader.IsAuthoritative@row
+//@ region funclit#0
+//@ flag skip frame
+//@ requires len(result) >= 21
+//@ ensures[auth] auth == (old(auth) || (!(result[2] == 42 || result[2] == 43) && result[0] * 256 + result[1] == 6))
+//@ ensures[ns] ns == (old(ns) || (!(result[2] == 42 || result[2] == 43) && result[0] * 256 + result[1] == 2))
+//@ func sortedDataReader.IsAuthoritative@row
+//@ region funclit#0
+//@ flag skip frame
+//@ requires len(result) >= 21
+//@ ensures[auth] auth == (old(auth) || (!(result[2] == 42 || result[2] == 43) && result[0] * 256 + result[1] == 6))
+//@ ensures[ns] ns == (old(ns) || (!(result[2] == 42 || result[2] == 43) && result[0] * 256 + result[1] == 2))
+
+// The closest-key walk continues upwards exactly as long as no NS was found (an SOA alone does not stop it),
+// as the label-by-label walk does.
+//@ func sortedDataReader.IsAuthoritative@continue
+//@ region funclit#2
+//@ flag skip frame
+//@ ensures[until-ns] result0 == !ns
